@@ -8,6 +8,7 @@ From Coq.Strings Require Import Byte.
 From Coq.Strings Require Import String.
 From TS Require Import Bytes State Prog Ops Interp NopSpec StackLemmas ConfigSpec TaprootSpec TapeLemmas AuthSpec
   Builders BuilderSpec TaprootNonNative.
+From TS Require BuilderSourcesProofs.
 Import ListNotations.
 Local Open Scope nat_scope.
 
@@ -100,5 +101,18 @@ Print Assumptions C05_nonnative_key_path_same_verdict.
 Print Assumptions C05_nonnative_script_path_both_exact.
 Print Assumptions C05_nonnative_equivalence_refuted_definition_0.
 Print Assumptions C05_nonnative_equivalence_refuted_call_budget.
+(* ---------- the taproot builders as SOURCE (model/BuilderSources.v mirrors the f-string templates of tools.py token for token — 83 Examples
+   against the real .src / .bytes; proofs/BuilderSourcesProofs.v: the template TEXT compiles, for all arguments, to the bytes of
+   model/Builders.v that the theorems above are about; closed statements printed by Check) ---------- *)
+Definition C05_src_taproot_lock_compiles := @BuilderSourcesProofs.taproot_lock_compiles.
+Definition C05_src_nonnative_taproot_lock_compiles := @BuilderSourcesProofs.nonnative_taproot_lock_compiles.
+Definition C05_src_taproot_witness_scriptspend_compiles := @BuilderSourcesProofs.taproot_witness_scriptspend_compiles.
+Check C05_src_taproot_lock_compiles.
+Check C05_src_nonnative_taproot_lock_compiles.
+Check C05_src_taproot_witness_scriptspend_compiles.
+Print Assumptions C05_src_taproot_lock_compiles.
+Print Assumptions C05_src_nonnative_taproot_lock_compiles.
+Print Assumptions C05_src_taproot_witness_scriptspend_compiles.
+
 Print Assumptions C05_script_path_exact.
 Print Assumptions C05_key_path_exact.
